@@ -282,6 +282,7 @@ fn udp_sessions(seed: u64, i: u64, n: usize, rep: &mut Report, fresh_out: &std::
             fresh.add("udp-client-session-id", &csid.to_be_bytes());
         }
         let mut last: Option<u64> = None;
+        let mut spid = 0u64;
         refimpl::unit_log_start();
         for k in 0..n {
             let pl = *rng.pick(&[0usize, 1, 100, 1200]);
@@ -317,12 +318,25 @@ fn udp_sessions(seed: u64, i: u64, n: usize, rep: &mut Report, fresh_out: &std::
             let mut rdst = BytesMut::new();
             let user = cfg.client_user.map(|u| cfg.users[u].0.clone());
             let ssid = 0x5151_0000 + _session as u64;
-            if guarded(|| server.encode(&payload, &to_address(&target), csid, ssid, k as u64 + 1, user.as_deref(), &mut rdst)).is_ok() {
+            // sessions 0 and 2: the server answers every request (its packet id keeps step with the client's);
+            // sessions 1 and 3: it answers one request in three, so its packet ids lag behind what the client has
+            // already used - and every reply is handed to the REAL client codec, as the relay does, between the sends
+            let answers = _session % 2 == 0 || rng.chance(1, 3);
+            if !answers {
+                continue;
+            }
+            spid += if _session == 3 && rng.chance(1, 8) { 5 } else { 1 };
+            if guarded(|| server.encode(&payload, &to_address(&target), csid, ssid, spid, user.as_deref(), &mut rdst)).is_ok() {
                 if m.is_2022() {
                     let _ = ss::s22_udp_client_decode(m, &keys.psk, &rdst);
                 } else {
                     fresh.add("udp-legacy-salt", &rdst[..m.key_len()]);
                     let _ = ss::sip004_udp_decode(m, &psk, &rdst);
+                }
+                let mut copy = rdst.clone();
+                match guarded(|| client.decode(&mut copy)) {
+                    Ok(Some(_)) => rep.mon("udp_replies_decoded_by_the_real_client_between_sends", 1),
+                    _ => rep.mon("udp_replies_the_real_client_did_not_accept", 1),
                 }
             }
         }
